@@ -128,8 +128,11 @@ Section SAnalysis.
       end
     end.
 
-  Definition scallee_ctx_plain (g : fn) : actx_err + list (bytes * option bytes) :=
-    sarg_ctx_ast (fn_params g) 0 [] [].
+  Definition scallee_ctx_plain (g : fn) (nbound : nat) : actx_err + list (bytes * option bytes) :=
+    match sarg_ctx_ast (fn_params g) 0 [] [] with
+    | inr named => inr (unbind nbound named)
+    | inl e => inl e
+    end.
 
   Definition sst3 := (list sfi * list (bytes * dg) * sresolved)%type.
 
@@ -212,11 +215,11 @@ Section SAnalysis.
     end
   with sana_step (s : step) (lines : list bytes) (input_sig : dg) (acc : sst3) {struct s} : aerr + sst3 :=
     let '(inters, loads, R) := acc in
-    let sana_plain_call (g : fn) (lines : list bytes) (line eline : nat) (input_sig : dg) (acc : sst3) : aerr + sst3 :=
+    let sana_plain_call (g : fn) (nbound : nat) (lines : list bytes) (line eline : nat) (input_sig : dg) (acc : sst3) : aerr + sst3 :=
       match scall_ctx lines line eline input_sig inters loads with
       | inl e => inl e
       | inr c =>
-        match scallee_ctx_plain g with
+        match scallee_ctx_plain g nbound with
         | inl e => inl (ErrArg e)
         | inr named =>
           match sana g (named, Some c) R with
@@ -232,8 +235,8 @@ Section SAnalysis.
       | Some sg => inr (inters, srupdate p sg loads, R)
       end
     | SApply _ => inr acc
-    | SCall line eline g _ => sana_plain_call g lines line eline input_sig acc
-    | SRef line g _ => sana_plain_call g lines line line input_sig acc
+    | SCall line eline g args => sana_plain_call g (List.length args) lines line eline input_sig acc
+    | SRef line g _ => sana_plain_call g 0 lines line line input_sig acc
     | SKeep line eline p g pos kw =>
       match scall_ctx lines line eline input_sig inters loads with
       | inl e => inl e
